@@ -171,10 +171,15 @@ def run(ctx):
             ok = any(T.is_op(kx, 'OR') and set(kx[2:]) == want for kx in known) or any(w in known for w in want)
             ob.require(ok, 'Version.parse accepts on a path that does not establish membership in the 12 known versions', fvp.where)
             break
+    check_dispatch(ctx, 'C07.DISPATCH')
+
+
+def check_dispatch(ctx, rule):
+    p = ctx.p
     # ---------------------------------------------------------------- from_extended_key
     ffx = p.get_function('base_wallet.BaseWallet.from_extended_key')
     for be in BACKENDS:
-        with ctx.obligation('C07.DISPATCH', 'BaseWallet.from_extended_key', be, ffx.where) as ob:
+        with ctx.obligation(rule, 'BaseWallet.from_extended_key', be, ffx.where) as ob:
             for (kt, net, bip), ver in sorted(slip132.TABLE.items(), key=lambda kv: kv[1]):
                 kind = 'prv' if kt == 'PRV' else 'pub'
                 cls = PRV if kt == 'PRV' else PUB
